@@ -259,7 +259,16 @@ serialised, so the sequential theorem `offsets_increasing` applies to every inte
 theorem appends_serialised : Ebu.Locks.CallbacksOk Ebu.Generated.callbackFacts = true :=
   Ebu.Props.C03.facts_callbacks_lock_free
 """),
- "C10": ("Ebu.Props.C03", """/-- the memory store's offset counter and event slice are only touched under its mutex (write
+ "C10": ("Ebu.Props.C03\nimport Ebu.Proofs.PersistConc", """/-- concurrent appenders, every schedule (M2p read as "threads calling MemoryStore.Append": reserve-and-insert is
+one step because both happen under the store's write lock, see `memory_store_locked` below): offsets are handed out
+1, 2, 3, … in log order, one record per append, and without the lock two appenders can get the same offset -/
+theorem concurrent_appends_increasing (recs sched : List Nat) :
+    let s := Ebu.PersistConc.run recs sched
+    s.log.map (·.1) = List.range' 1 s.log.length ∧ (s.log.map (·.2)).Perm (Ebu.PersistConc.persistedRecs s) ∧
+    (([0, 1, 0, 1].foldl Ebu.PersistConc.ustepAt { threads := [{ record := 7 }, { record := 8 }] }).log.map (·.1)) = [1, 1] :=
+  ⟨(Ebu.PersistConc.offsets_ok recs sched).1, Ebu.PersistConc.log_ok recs sched, Ebu.PersistConc.unlocked_duplicates_offsets⟩
+
+/-- the memory store's offset counter and event slice are only touched under its mutex (write
 locked for Append) in the CURRENT source: concurrent appenders cannot interleave "reserve offset"
 and "insert", so offsets increase in log order under every schedule -/
 theorem memory_store_locked : Ebu.Locks.Discipline Ebu.Generated.accessFacts = true :=
@@ -270,7 +279,23 @@ and updates `shard.handlers` inside one write-locked critical section (fact tabl
 theorem registry_steps_atomic : Ebu.Locks.RegistryOpsAtomic Ebu.Generated.accessFacts = true :=
   Ebu.Props.C03.facts_registry_ops_atomic
 """),
- "C12": ("Ebu.Props.C03", """/-- the bus offset a live handler saves is written inside the `storeMu` critical section that
+ "C12": ("Ebu.Props.C03\nimport Ebu.Proofs.SaveConc\nimport Ebu.Generated.Consts", """/-! ### the saved offset under concurrent publishers (M5c, `Ebu/Model/SaveConc.lean`) -/
+
+/-- under EVERY schedule of any number of concurrent publishes the values saved for a subscription never decrease
+and the saved position is the last value saved – given that "read the bus offset" and "save it" are one step -/
+theorem saved_offset_monotone_concurrent (n : Nat) (sched : List Nat) :
+    let s := Ebu.SaveConc.runLocked n sched
+    s.history.Pairwise (· ≤ ·) ∧ s.saved ≤ s.lastOffset ∧ (∀ x, s.history.getLast? = some x → s.saved = x) :=
+  Ebu.SaveConc.saved_offset_monotone_concurrent n sched
+
+/-- OBLIGATION on the current source: the live handler reads `bus.lastOffset` and calls `SaveOffset` inside one
+critical section of its per-subscription mutex (extracted from persist.go on every run); without it the saved
+offset regresses (`unlocked_saved_offset_regresses`: the history [2, 1]) -/
+theorem live_save_is_one_step : Ebu.Generated.Consts.liveSaveSerialised = true ∧
+    (Ebu.SaveConc.runUnlocked 2 [0, 0, 1, 1, 1, 0]).history = [2, 1] :=
+  ⟨by decide, Ebu.SaveConc.unlocked_saved_offset_regresses.1⟩
+
+/-- the bus offset a live handler saves is written inside the `storeMu` critical section that
 also performs the append (CURRENT source), so it only ever increases; together with the
 per-subscription save mutex (fix c3a4d4d) the saved offset is monotone under concurrent publishers -/
 theorem bus_offset_serialised : Ebu.Locks.CallbacksOk Ebu.Generated.callbackFacts = true ∧
